@@ -111,6 +111,7 @@ class DC:
     def __init__(self, c, w, script, hash_name, root, now, reply_kind, port, tag, want_pad=None):
         self.c, self.w, self.script, self.hash_name, self.root, self.now, self.reply_kind, self.port, self.tag = c, w, script, hash_name, root, now, reply_kind, port, tag
         self.want_pad = want_pad
+        self.authn = 9  # RPC_C_AUTHN_GSS_NEGOTIATE; 10 = WINNT (ntlm), 16 = GSS_KERBEROS
         self.reply_pads = []
         self.connections = []  # (host, port)
         self.sent = []  # every PDU the client sent, in order, as (connection index, bytes)
@@ -193,10 +194,10 @@ class DC:
             trailer = b[end : end + 8]
             token = b[end + 8 : end + 8 + auth_len]
             conn.legs += 1
-            self.note(all_of([trailer[0] == 9, trailer[1] == 6, trailer[2] == 0, seq_eq(token, self.script.token(conn.legs)), len(b) == end + 8 + auth_len]),
-                      "security trailer: negotiate / PKT_PRIVACY / the provider's token for this leg")
+            self.note(all_of([trailer[0] == self.authn, trailer[1] == 6, trailer[2] == 0, seq_eq(token, self.script.token(conn.legs)), len(b) == end + 8 + auth_len]),
+                      "security trailer: the provider the caller asked for / PKT_PRIVACY / the provider's token for this leg")
             stok = self.c.bytes(f"{self.tag}stok{conn.legs}", 4) if False else self.script_server_token(conn.legs)
-            tr = refs.cat(bytes([9, 6, 0, 0, 0, 0, 0, 0]), stok)
+            tr = refs.cat(bytes([self.authn, 6, 0, 0, 0, 0, 0, 0]), stok)
             ack_auth = 4
         pt = 12 if ptype == 11 else 15
         sec_addr = refs.cat(_dec(self.c, self.port if not truth(conn.port == 135) else 135), b"\0") if ptype == 11 else b""  # the port the server listens on, in decimal
@@ -229,7 +230,7 @@ class DC:
         BT = secctx.BT
         n = len(b)
         self.note(all_of([seq_eq(b[:24], h), seq_eq(b[24 : n - 24], call["sealed"]), seq_eq(b[n - 24 : n - 16], t), seq_eq(b[n - 16 :], call["sig"]), call["encrypt"] is True, bt == BT.data,
-                          ht == BT.sign_only, tt == BT.sign_only, t[0] == 9, t[1] == 6, len(plain) % 16 == 0, t[2] < 16, alloc_hint == len(plain)]),
+                          ht == BT.sign_only, tt == BT.sign_only, t[0] == self.authn, t[1] == 6, len(plain) % 16 == 0, t[2] < 16, alloc_hint == len(plain)]),
                   "wire = header | Seal(stub+pad) | trailer | signature at PKT_PRIVACY with header signing (both sides advertised it)")
         pad = conc(c, t[2])
         body = plain[: len(plain) - pad]
@@ -333,7 +334,7 @@ class DC:
         plain = refs.cat(stub, bytes(pad))
         n = 24 + len(plain) + 8 + 16
         header = refs.cat(bytes([5, 0, 2, 3, 0x10, 0, 0, 0]), refs.le(n, 2), refs.le(16, 2), refs.le(1, 4), refs.le(len(plain), 4), refs.le(0, 2), bytes(2))
-        trailer = bytes([9, 6, pad, 0, 0, 0, 0, 0])
+        trailer = bytes([self.authn, 6, pad, 0, 0, 0, 0, 0])
         # sealing by the server is deterministic as well (same reply -> same octets in the sync and the async run)
         hit = None
         for body, sealed, sig in self.script.seals:
@@ -437,27 +438,27 @@ def _params(tier):
     out = []
     kinds = ["seed", "DH", "ECDH_P256", "ECDH_P384"]
     if tier == "quick":
-        out.append(dict(op="unprotect", hash_name="SHA512", reply_kind="seed", sid=1, rk=True, pad=0, digits=5))
-        out.append(dict(op="protect", hash_name="SHA256", reply_kind="seed", sid=0, rk=False, pad=4, digits=4))
-        out.append(dict(op="protect", hash_name="SHA1", reply_kind="ECDH_P256", sid=2, rk=True, pad=8, digits=3))
-        out.append(dict(op="protect", hash_name="SHA384", reply_kind="DH", sid=3, rk=False, pad=12, digits=2))
-        out.append(dict(op="protect", hash_name="SHA512", reply_kind="seed", sid=4, rk=True, pad=0, digits=1))
+        out.append(dict(op="unprotect", hash_name="SHA512", reply_kind="seed", sid=1, rk=True, pad=0, digits=5, proto="negotiate"))
+        out.append(dict(op="protect", hash_name="SHA256", reply_kind="seed", sid=0, rk=False, pad=4, digits=4, proto="ntlm"))
+        out.append(dict(op="protect", hash_name="SHA1", reply_kind="ECDH_P256", sid=2, rk=True, pad=8, digits=3, proto="kerberos"))
+        out.append(dict(op="protect", hash_name="SHA384", reply_kind="DH", sid=3, rk=False, pad=12, digits=2, proto="negotiate"))
+        out.append(dict(op="protect", hash_name="SHA512", reply_kind="seed", sid=4, rk=True, pad=0, digits=1, proto="kerberos"))
         return out
     for i, h in enumerate(HASHES):
         for j, k in enumerate(kinds):
-            out.append(dict(op="protect", hash_name=h, reply_kind=k, sid=(i + j) % 5, rk=bool((i + j) % 2), pad=4 * ((i + j) % 4), digits=1 + (i + 2 * j) % 5))
+            out.append(dict(op="protect", hash_name=h, reply_kind=k, sid=(i + j) % 5, rk=bool((i + j) % 2), pad=4 * ((i + j) % 4), digits=1 + (i + 2 * j) % 5, proto=("negotiate", "ntlm", "kerberos")[(i + j) % 3]))
         for s in range(5):
-            out.append(dict(op="unprotect", hash_name=h, reply_kind="seed", sid=s, rk=True, pad=4 * ((i + s) % 4), digits=1 + (i + s) % 5))
+            out.append(dict(op="unprotect", hash_name=h, reply_kind="seed", sid=s, rk=True, pad=4 * ((i + s) % 4), digits=1 + (i + s) % 5, proto=("ntlm", "kerberos", "negotiate")[(i + s) % 3]))
     return out
 
 
 @harness(P, per_job=True, params=_params, max_steps=6000000, raises=(ScalarOutOfRange,),
          bounds="one online unprotect (blob at a solver-chosen position (L1,L2) of a 3x3 corner of the lattice incl. L2=31 and L1=0, seed-key reply) or protect (DC 'now' at a listed "
          "position; seed-key reply or DH / ECDH_P256 / ECDH_P384 public-key reply; root key id given or not) against the reference DC, run through the sync API and the async API in the same "
-         "path; 4 hashes; 5 SID shapes (SD lengths with different residues mod 8); domain name length chosen by the DC so that the sealed reply needs 0 / 4 / 8 / 12 bytes of auth padding; ISD_KEY port symbolic over every 16-bit port with the job's number of decimal digits (1..5; not 135), echoed by the DC as the bind_ack secondary address; 2 authentication legs; an ephemeral EC scalar outside [1, n-1] makes the EC library raise ValueError (allowed)",
+         "path; 4 hashes; 5 SID shapes (SD lengths with different residues mod 8); domain name length chosen by the DC so that the sealed reply needs 0 / 4 / 8 / 12 bytes of auth padding; ISD_KEY port symbolic over every 16-bit port with the job's number of decimal digits (1..5; not 135), echoed by the DC as the bind_ack secondary address; 2 authentication legs; auth_protocol negotiate / ntlm / kerberos (the DC expects that provider in every security trailer); an ephemeral EC scalar outside [1, n-1] makes the EC library raise ValueError (allowed)",
          outside="other positions (C02 covers the derivation for every position), other numbers of authentication legs (C15), fragmented replies (C14)",
          must_reach=("the DC saw a conforming conversation", "the request names exactly the key the blob / the caller asked for", "result is correct", "sync and async conduct the same conversation"))
-def online(c, op, hash_name, reply_kind, sid, rk, pad, digits):
+def online(c, op, hash_name, reply_kind, sid, rk, pad, digits, proto):
     port = c.int("isd_key_port", max(1, 10 ** (digits - 1)), min(65535, 10**digits - 1))  # every port with the job's number of decimal digits
     c.assume(port != 135)  # 135 is the endpoint mapper itself
     lo, _ = e2e.window(361, 9, 6, -5, -5)
@@ -493,9 +494,10 @@ def online(c, op, hash_name, reply_kind, sid, rk, pad, digits):
     runs = {}
     for flavour in ("sync", "async"):
         dc, stubs = _run(c, w, script, flavour, op, hash_name, root, now, reply_kind, port, blob, pt, sidstr, rk, None, want_pad=pad)
+        dc.authn = {"negotiate": 9, "ntlm": 10, "kerberos": 16}[proto]
         holder["cur"] = {"create_connection": stubs[0][1], "open_connection": stubs[1][1], "spnego_client": stubs[3][1]}
         cache = dpapi_ng.KeyCache()
-        kw = dict(server="dc01.domain.test", username="user", password="pass", auth_protocol="negotiate", cache=cache)
+        kw = dict(server="dc01.domain.test", username="user", password="pass", auth_protocol=proto, cache=cache)
         if op == "unprotect":
             if flavour == "sync":
                 out = c.call(dpapi_ng.ncrypt_unprotect_secret, blob, **kw)
@@ -520,7 +522,7 @@ def online(c, op, hash_name, reply_kind, sid, rk, pad, digits):
         c.check(all_of([x[0] if isinstance(x[0], (bool, V.SymBool)) else bool(x[0]) for x in dc.findings] or [True]), "the DC saw a conforming conversation")
         c.check(len(dc.connections) == 2 and dc.connections[0] == ("dc01.domain.test", 135) and dc.connections[1][0] == "dc01.domain.test" and truth(dc.connections[1][1] == port)
                 and all(cn.closed for cn in dc.conns), "endpoint mapper on 135 first, then the port it returned; both connections closed")
-        c.check(dc.client_args == dict(username="user", hostname="dc01.domain.test", service="host", protocol="negotiate",
+        c.check(dc.client_args == dict(username="user", hostname="dc01.domain.test", service="host", protocol=proto,
                                        context_req=spnego.ContextReq.default | spnego.ContextReq.dce_style), "security context requested for host/<server> with DCE style")
         (req,) = dc.getkey_requests
         if op == "unprotect":
